@@ -118,8 +118,9 @@ CHECKS = {
         "assumptions": ["PARTIAL: refinement of seq_eval by the composed implementation is validated by this differential, proved only per layer"],
     },
     "C11": {
-        "modules": ["p_c11", "p_c11g"],
-        "rule": "p_c11g: helpers.ShutdownHelper in lockstep with Model/Gate.v, 2-4 threads x 1-3 calls of helper() / ensure_alive(); p_c11: seeded scenarios on real stacks: depth 1-4 over the seven layer kinds, base sync or the real ThreadPoolExecutor, workload "
+        "extra_props": ["Props/C11_Chain.v"],
+        "modules": ["p_c11", "p_c11g", "p_c11c"],
+        "rule": "p_c11c: the shutdown chain as a machine (Model/Chain.v): random stacks as p_c11 plus users shutting down inner layers, callables calling back into submit/shutdown, worker-thread delegate submissions; every history is projected to per-layer shutdown/submit calls, gate operations and worker exits and replayed on the extracted machine; p_c11g: helpers.ShutdownHelper in lockstep with Model/Gate.v, 2-4 threads x 1-3 calls of helper() / ensure_alive(); p_c11: seeded scenarios on real stacks: depth 1-4 over the seven layer kinds, base sync or the real ThreadPoolExecutor, workload "
                 "idle/quick/failing (sleeping between retries)/blocked callables/polling, shutdown(wait True/False, with/without "
                 "cancel_futures) after a virtual delay, 0-2 submitters racing with it, 0-2 further threads calling shutdown() concurrently, a second shutdown, a submit afterwards; every "
                 "layer's shutdown() is wrapped to record calls and arguments; x {random, sticky, PCT} schedules; monitor: error message, "
@@ -128,7 +129,7 @@ CHECKS = {
         "assumptions": ["PARTIAL: cross-layer propagation/joining is decided by the monitor on explored schedules; the gate protocol is proved for any number of threads"],
     },
     "C04": {
-        "extra_props": ["Props/C04_retry.v", "Props/C04_poll.v", "Props/C04_throttle.v"],
+        "extra_props": ["Props/C04_retry.v", "Props/C04_poll.v", "Props/C04_throttle.v", "Props/C04_timeout.v"],
         "modules": ["p_c04", "p_c04r"],
         "rule": "p_c04r: the Retry lockstep family (C05) with the pending / late / deadlock verdicts (a result() or shutdown(wait=True) that would wait for ever on the submit thread); p_c04: seeded scenarios on real stacks: depth 1-4 over the seven layer kinds, base sync or the real ThreadPoolExecutor, client programs "
                 "of 1-3 threads x 1-4 operations {submit, submit whose callable submits again, cancel, add_done_callback, add_done_callback "
